@@ -112,6 +112,24 @@ theorem C12_set_fuel {cfg : PalCfg} {gb n : Nat} {c : Container} (hgb : GbOK cfg
   obtain ⟨_, _, _, _, _, h'⟩ := setF_inv hgb hinv hi hv 15
   exact ⟨h, h'⟩
 
+/-- the array law in the code's own terms, without the abstraction: after `Set(i, v)` — in every representation,
+including across a rebuild one step wider — `Get(i)` returns `v` and `Get(j)` for every other index in range
+returns what it returned before -/
+theorem C12_set_then_get {cfg : PalCfg} {gb n : Nat} {c : Container} (hgb : GbOK cfg gb) (hinv : Inv cfg gb n c)
+    {i : Nat} (hi : i < n) {v : Int} (hv : InReg gb v) (fuel : Nat) :
+    ∃ c', c.setF (fuel + 1) (i : Int) v = (.ok (), c') ∧ c'.get (i : Int) = .ok v ∧
+      ∀ j, j < n → j ≠ i → c'.get (j : Int) = c.get (j : Int) := by
+  obtain ⟨c', h1, h2, h3⟩ := C12_set_refines hgb hinv hi hv fuel
+  refine ⟨c', h1, ?_, ?_⟩
+  · obtain ⟨x, hx, hax, _⟩ := C12_get hgb h2 hi
+    rw [h3, List.getElem?_set_self (by simpa using hi)] at hax
+    rw [hx]; congr 1; exact (Option.some.inj hax).symm
+  · intro j hj hne
+    obtain ⟨x, hx, hax, _⟩ := C12_get hgb h2 hj
+    obtain ⟨y, hy, hay, _⟩ := C12_get hgb hinv hj
+    rw [h3, List.getElem?_set_ne (Ne.symm hne), hay] at hax
+    rw [hx, hy]; congr 1; exact (Option.some.inj hax).symm
+
 /-- every history of `Set` calls: all succeed, the invariant holds at the end, and the container then is the
 array obtained by the same updates — so `Get(i)` returns the last value set at `i` (or the initial one) and
 no other position ever changes -/
